@@ -6,11 +6,14 @@
    through o; raw_value / raw_array_n / raw_array_init = sharedctypes.RawValue / RawArray(n) /
    RawArray(initialiser) as interpreters over the effect sequences regenerated from the code;
    obj_ok h o = o's block is live in heap h and at least o's size long; HeapInv = the C14 invariant;
-   world/wstep/wrun = an interleaving semantics of threads running `with v.get_lock(): v.value += 1`. *)
+   world/wstep/wrun = an interleaving semantics of threads running `with v.get_lock(): v.value += 1`;
+   Model/SharedShadow.v = the heap-free specification of create/drop/store/rebuild histories (shadow map);
+   Model/SharedHop.v / SharedHopDrop.v = processes with their own registries and heaps, hand-overs, drops. *)
 From Coq Require Import ZArith List Bool.
-From BV Require Import Lib.PyVal Model.Heap Model.SharedMem Model.SharedHop Gen.G_sharedmem.
+From BV Require Import Lib.PyVal Model.Heap Model.SharedMem Model.SharedHop Model.SharedShadow Model.SharedHopDrop
+  Gen.G_sharedmem.
 From BV Require Import Proofs.HeapGeo Proofs.HeapInv Proofs.SharedMemProofs Proofs.SharedMemLockProofs Proofs.SharedMemGen
-  Proofs.SharedHopProofs.
+  Proofs.SharedHopProofs Proofs.SharedMemHist Proofs.SharedMemLockArg Proofs.SharedHopDropProofs.
 Import ListNotations.
 Open Scope Z_scope.
 
@@ -50,6 +53,40 @@ Theorem C15_code_lock_passed :
   value_and_array_hand_lock_and_ctx_to_synchronized = true.
 Proof. exact gen_synchronized_passes_lock. Qed.
 Print Assumptions C15_code_lock_passed.
+
+(* ... but SynchronizedBase.__init__ keeps that lock only under a test, read from the code on this run:
+   `if lock:` -- by truth value (Model/SharedMem.synchronized_w follows it) *)
+Theorem C15_code_lock_test : G_sharedmem.wrapper_lock_test = SharedMem.wrapper_lock_test.
+Proof. exact gen_wrapper_lock_test. Qed.
+Print Assumptions C15_code_lock_test.
+
+(* a lock whose truth value is true is the lock the wrapper uses; without a lock, a fresh one *)
+Theorem C15_given_lock_is_used_partial : forall o l fresh,
+  wr_lock (synchronized_w o (Some (l, true)) fresh) = l /\ wr_lock (synchronized_w o None fresh) = fresh.
+Proof. intros. split; [apply truthy_lock_is_used|apply no_lock_gives_fresh]. Qed.
+Print Assumptions C15_given_lock_is_used_partial.
+
+(* "the lock given is the lock used" is false of the code: a lock object that is false in a boolean
+   context (defines __bool__ / __len__) is silently replaced by a private RLock ... *)
+Theorem C15_given_lock_is_used_refuted :
+  exists o l tv fresh, fresh <> l /\ wr_lock (synchronized_w o (Some (l, tv)) fresh) <> l.
+Proof. exact given_lock_is_used_refuted. Qed.
+Print Assumptions C15_given_lock_is_used_refuted.
+
+(* ... (it would hold under `if lock is not None:`) ... *)
+Theorem C15_given_lock_is_used_under_none_test : forall o l tv fresh,
+  wr_lock (synchronized_gen LockNotNone o (Some (l, tv)) fresh) = l /\
+  wr_lock (synchronized_gen LockAlways o (Some (l, tv)) fresh) = l.
+Proof. exact given_lock_is_used_with_none_test. Qed.
+Print Assumptions C15_given_lock_is_used_under_none_test.
+
+(* ... and then an update is lost: updater 0 increments while holding the lock L it passed as lock= (for the
+   wrapper's own lock that is the program without the outer acquire), updater 1 while holding get_lock() *)
+Theorem C15_falsy_lock_loses_update_refuted :
+  exists sched, let w := wrun_h mixed_progs (world_init 0 2 1) sched in
+                all_done w = true /\ w_val w = 1.
+Proof. exact falsy_lock_loses_update. Qed.
+Print Assumptions C15_falsy_lock_loses_update_refuted.
 
 (* ---- initialised: whatever the heap state and whatever bytes the (possibly recycled) storage
    held, a RawValue reads as its initialiser followed by zeros (all zeros without initialiser) ---- *)
@@ -93,22 +130,65 @@ Theorem C15_isolated : forall h m o1 o2 off bs m', HeapInv h ->
 Proof. exact write_isolated. Qed.
 Print Assumptions C15_isolated.
 
-(* ---- visible / same storage after rebuild ---- *)
-Theorem C15_same_storage_after_rebuild : forall o, rebuild_obj (reduce_obj o) = o.
-Proof. exact rebuild_same. Qed.
+(* ---- all histories: initialised, isolated, stores read back, through any object over the wrapper ----
+   sh_run / sh_trace / sh_reads (Model/SharedShadow.v) = the SPECIFICATION, computed from the op list alone,
+   no heap: per object its initial value (initial_bytes: initialiser then zeros / zeros / the initialiser),
+   overwritten by the stores made through it or through an object rebuilt over the same wrapper; dropped objects
+   vanish.  sh_run [] ops = Some sh says the history is in the domain (sizes in [0, sys.maxsize), initialisers
+   that fit, ops through live objects, stores inside the object); objects may be dropped in ANY order.
+   sexec / srun (Model/SharedMem.v) = the implementation model: C14's allocator underneath, a drop frees the
+   block when the last object over the wrapper goes, recycled storage is dirty. *)
+Theorem C15_history_state : forall pg hsize ops sh, pg_ok pg -> sh_run [] ops = Some sh ->
+  exists s objs,
+    sexec pg (mk_sm (heap_init hsize) mem0) [] ops = OK (s, objs) /\          (* nothing raises *)
+    HeapInv (sm_heap s) /\                                                    (* C14's invariant is kept *)
+    live_reads (sm_mem s) objs O = sh_reads sh O /\                           (* every live object reads its shadow *)
+    forall i j oi oj, nth i objs None = Some oi -> nth j objs None = Some oj ->
+      obj_ok (sm_heap s) oi /\                                                (* live block, large enough *)
+      (sh_root sh i = sh_root sh j -> oi = oj) /\                             (* rebuilt = the same (block, size) *)
+      (sh_root sh i <> sh_root sh j -> disj (o_block oi) (o_block oj)).       (* otherwise: disjoint storage *)
+Proof. exact history_state. Qed.
+Print Assumptions C15_history_state.
+
+(* the same on what srun observes after EVERY op of the history (the observations compared with the real
+   sharedctypes by the correspondence): all reads equal the shadow's, no op raises *)
+Theorem C15_history_trace : forall pg hsize ops sh, pg_ok pg -> sh_run [] ops = Some sh ->
+  map snd (srun pg (mk_sm (heap_init hsize) mem0) [] ops) = sh_trace [] ops /\
+  length (srun pg (mk_sm (heap_init hsize) mem0) [] ops) = length ops /\
+  Forall (fun ob => 0 <= snd (fst ob)) (srun pg (mk_sm (heap_init hsize) mem0) [] ops).
+Proof. exact history_trace. Qed.
+Print Assumptions C15_history_trace.
+
+(* one step of it, from any state: a store through an object is read back through the same storage as the old
+   bytes overwritten at that offset (replaces the former C15_store_visible, which was this for off = 0 and a
+   full-size store, plus an identity on pairs) *)
+Theorem C15_store_read_back : forall m o off bs m', 0 <= o_size o ->
+  o_write m o off bs = Some m' -> o_read m' o = overwrite (o_read m o) (Z.to_nat off) bs.
+Proof. exact read_after_write. Qed.
+Print Assumptions C15_store_read_back.
+
+(* ---- same storage / same lock after rebuild ----
+   (replaces the former C15_same_storage_after_rebuild `rebuild_obj (reduce_obj o) = o`, an identity on pairs, by
+   the statement through the process model:) after ANY history of spawning, allocating, handing over and
+   storing, pickling handle k inside its holder and rebuilding it inside process q yields a new handle living in
+   q, of the same type, over the SAME block of the SAME owner's arena -- not a copy -- reading the same bytes *)
+Theorem C15_same_storage_after_rebuild : forall pg hsize ops s k q hk s',
+  hrun pg hsize SharedHop.new_value_prog SharedHop.rebuild_prog (hsys_init hsize) ops = OK s ->
+  nth_error (hs_handles s) k = Some hk ->
+  hstep pg hsize SharedHop.new_value_prog SharedHop.rebuild_prog s (HSend k q) = OK s' ->
+  exists hn owner ob,
+    hs_handles s' = hs_handles s ++ [hn] /\ h_proc hn = q /\ h_type hn = h_type hk /\
+    h_store hk = HShared owner ob /\ h_store hn = HShared owner ob /\
+    hread s' hn = hread s' hk.
+Proof. exact hops_rebuilt_same_storage. Qed.
 Print Assumptions C15_same_storage_after_rebuild.
 
-Theorem C15_same_lock_and_storage_after_rebuild : forall w,
-  rebuild_wrapper (reduce_wrapper w) = w.
+(* a wrapper rebuilt from its pickled state (synchronized, (obj, self._lock)) keeps the pickled lock -- it does
+   not make a fresh one, because the lock a wrapper holds is true in `if lock:` -- and the same (block, size) *)
+Theorem C15_same_lock_and_storage_after_rebuild : forall w fresh,
+  rebuild_wrapper (reduce_wrapper w) fresh = w.
 Proof. exact rebuild_wrapper_same. Qed.
 Print Assumptions C15_same_lock_and_storage_after_rebuild.
-
-(* hence a store through the original is read back through the rebuilt object and vice versa *)
-Theorem C15_store_visible : forall m o bs m', Z.of_nat (length bs) = o_size o ->
-  o_write m o 0 bs = Some m' ->
-  o_read m' o = bs /\ o_read m' (rebuild_obj (reduce_obj o)) = bs.
-Proof. intros m o bs m' Hl Hw. rewrite rebuild_same. split; eapply write_visible; eassumption. Qed.
-Print Assumptions C15_store_visible.
 
 (* ---- handed on from process to process (Model/SharedHop.v) ----
    A process has its own ForkingPickler registry (empty in a fresh, spawn-style interpreter); sending a
@@ -176,6 +256,48 @@ Proof.
          |exact second_hop_of_array_raises_without_registration_in_rebuild].
 Qed.
 Print Assumptions C15_registration_only_at_allocation_refuted.
+
+(* ---- dropping across processes (Model/SharedHopDrop.v): NOT isolated ----
+   A BufferWrapper rebuilt by unpickling has no finaliser and the owner's heap does not know it: when the owner
+   drops the object it allocated, the block is freed although a receiver still uses it, and the next allocation
+   of that size gets the same cells.  Two live shared objects of different allocations then share storage: the
+   receiver's object loses its value, and a store through it changes the other -- in another process, or (second
+   witness) inside the owner itself through a handle it received back. *)
+Theorem C15_owner_drop_recycles_receivers_storage_refuted :
+  match drun 4096 4096 (dsys_init 4096) recycle_witness with
+  | OK s =>
+      match nth_error (hs_handles (d_sys s)) 1, nth_error (hs_handles (d_sys s)) 2 with
+      | Some h1, Some h2 =>
+          is_live (d_flags s) 1 = true /\ is_live (d_flags s) 2 = true /\
+          nth 1 (droots recycle_witness) O <> nth 2 (droots recycle_witness) O /\
+          h_proc h1 = 1%nat /\ h_proc h2 = 0%nat /\
+          h_store h1 = h_store h2 /\
+          hread (d_sys s) h1 = [9; 0; 0; 0] /\
+          match dstep 4096 4096 s (DOp (HWrite 1 0 [1; 1; 1; 1])) with
+          | OK s' => hread (d_sys s') h2 = [1; 1; 1; 1]
+          | Err _ => False
+          end
+      | _, _ => False
+      end
+  | Err _ => False
+  end.
+Proof. exact owner_drop_recycles_receivers_storage. Qed.
+Print Assumptions C15_owner_drop_recycles_receivers_storage_refuted.
+
+Theorem C15_owner_drop_recycles_its_own_second_handle_refuted :
+  match drun 4096 4096 (dsys_init 4096) recycle_witness_same_process with
+  | OK s =>
+      match nth_error (hs_handles (d_sys s)) 2, nth_error (hs_handles (d_sys s)) 3 with
+      | Some h2, Some h3 =>
+          is_live (d_flags s) 2 = true /\ is_live (d_flags s) 3 = true /\
+          h_proc h2 = 0%nat /\ h_proc h3 = 0%nat /\ h_store h2 = h_store h3 /\
+          hread (d_sys s) h2 = [0; 0; 0; 0; 0; 0; 0; 0]
+      | _, _ => False
+      end
+  | Err _ => False
+  end.
+Proof. exact owner_drop_recycles_its_own_second_handle. Qed.
+Print Assumptions C15_owner_drop_recycles_its_own_second_handle_refuted.
 
 (* ---- atomic ---- *)
 (* n threads, each k times `with v.get_lock(): v.value += 1`, any schedule: at every moment the
@@ -248,3 +370,19 @@ Example C15_witness_three_hops :
   | Err _ => False
   end.
 Proof. exact three_hops_share. Qed.
+
+(* non-vacuity of the history theorems: the hypothesis sh_run [] ops = Some _ holds for a history that creates,
+   dirties, drops, recycles, rebuilds, stores through the alias, drops the original before its alias *)
+Example C15_witness_history :
+  sh_run [] hist_witness
+    = Some [None; Some (1%nat, [5; 6]); None; None; Some (4%nat, [0; 0; 0]); Some (5%nat, [1])] /\
+  sh_trace [] hist_witness =
+    [[(0%nat, [7; 0; 0; 0])]; [(0%nat, [255; 255; 255; 255])]; [(0%nat, [255; 255; 255; 255]); (1%nat, [5; 6])];
+     [(1%nat, [5; 6])]; [(1%nat, [5; 6]); (2%nat, [0; 0])]; [(1%nat, [5; 6]); (2%nat, [0; 0]); (3%nat, [0; 0])];
+     [(1%nat, [5; 6]); (2%nat, [0; 9]); (3%nat, [0; 9])]; [(1%nat, [5; 6]); (3%nat, [0; 9])];
+     [(1%nat, [5; 6]); (3%nat, [0; 9]); (4%nat, [0; 0; 0])]; [(1%nat, [5; 6]); (4%nat, [0; 0; 0])];
+     [(1%nat, [5; 6]); (4%nat, [0; 0; 0]); (5%nat, [1])]] /\
+  map (fun ob => fst (fst ob)) (srun 64 (mk_sm (heap_init 64) mem0) [] hist_witness) =
+    [(0, 0, 8); none_block; (0, 8, 16); none_block; (0, 0, 8); (0, 0, 8); none_block; none_block; (0, 16, 24);
+     none_block; (0, 0, 8)].
+Proof. exact hist_witness_valid. Qed.
